@@ -135,6 +135,7 @@ struct Ref {
         rec.draws = roles.size();
         return true;
     }
+    std::function<bool(size_t)> after_iteration; // called with the index of the iteration record; returning false stops the run (the caller reported)
     bool run(int burn, int collect){
         size_t n = (size_t) c.n, d = (size_t) c.d;
         if (!pv_ready){
@@ -143,7 +144,7 @@ struct Ref {
             pv_ready = true;
         }
         int total = std::max(burn, 0) + std::max(collect, 0);
-        for(int t=0;t<total;t++) if (!iteration(t >= burn)) return false;
+        for(int t=0;t<total;t++){ if (!iteration(t >= burn)) return false; if (after_iteration && !after_iteration(its.size() - 1)) return false; }
         if (replay && pos != end) return fail("C15:lockstep:extra-callbacks", "the library made " + std::to_string(end - pos) + " callbacks more than one run of the model (next kind " + log->ev[pos].t + ")");
         return true;
     }
@@ -172,84 +173,86 @@ static std::vector<Case> make_cases(const Cfg &c, long &LA_out){
 
 // ---------------------------------------------------------------- oracle of one case (runs in the child)
 #define CJ case_json(c, k)
-static void check_exec(const Cfg &c, const Case &k, const Exec &ex, Delta &d, Ref &ref){
-    size_t n = (size_t) c.n, dm = (size_t) c.d;
-    if (!ex.thrown.empty()){ d.viol("C15:exception", CJ, "SampleDREAM threw: " + ex.thrown); return; }
+// returns false after the first violation of an execution (one defect, one record per case; later symptoms would only be consequences)
+static bool check_exec(const Cfg &c, const Case &k, const Exec &ex, Delta &d, Ref &ref){
+    size_t n = (size_t) c.n, dm = (size_t) c.d; const char *fm = c.form ? "logform" : "regform";
+    if (!ex.thrown.empty()){ d.viol("C15:exception", CJ, "SampleDREAM threw: " + ex.thrown); return false; }
     d.transitions += (long) ex.log.ev.size();
-    // direct oracles on the environment log: the probability function only ever sees in-domain points (after the initial state)
+    // direct oracle on the environment log: the probability function only ever sees in-domain points (after the initial state)
     bool first_p = true;
-    for(auto &e : ex.log.ev){ if (e.t != 'P') continue; if (first_p){ first_p = false; continue; } const double *x = ex.log.x(e); for(size_t m=0;m<e.nx/dm;m++){ d.evals++; if (!my_domain(c, x + m*dm)){ d.viol("C15:pdf-evaluated-outside-domain", CJ, "probability function called on " + vstr(x + m*dm, dm)); break; } } }
+    for(auto &e : ex.log.ev){ if (e.t != 'P') continue; if (first_p){ first_p = false; continue; } const double *x = ex.log.x(e); for(size_t m=0;m<e.nx/dm;m++){ d.evals++; if (!my_domain(c, x + m*dm)){ d.viol("C15:pdf-evaluated-outside-domain", CJ, "probability function called on " + vstr(x + m*dm, dm)); return false; } } }
     size_t prev_hist = 0; uint64_t ch = c.hash();
     for(size_t r=0;r<k.runs.size();r++){
         const RunObs &o = ex.obs[r]; int burn = k.runs[r].first, coll = k.runs[r].second;
         // books: exactly collect x chains new samples
         d.evals++;
-        if (o.hpdf.size() != prev_hist + (size_t) std::max(coll, 0) * n || o.hist.size() != (prev_hist + (size_t) std::max(coll, 0) * n) * dm || o.nhist != o.hpdf.size())
-            d.viol("C15:history-growth", CJ, "run " + std::to_string(r) + " (burn " + std::to_string(burn) + ", collect " + std::to_string(coll) + "): history went from " + std::to_string(prev_hist) + " to " + std::to_string(o.hpdf.size()) + " samples (" + std::to_string(o.hist.size()) + " coordinates), chains " + std::to_string(n));
-        // recorded samples: inside the domain (given an initial state inside), recorded value = pdf(sample)
-        for(size_t m=prev_hist; m<o.hpdf.size() && (m+1)*dm <= o.hist.size(); m++){
-            d.evals += 2;
-            if (c.dom != 2 && !my_domain(c, &o.hist[m*dm])) d.viol("C15:recorded-sample-outside-domain", CJ, "recorded sample " + std::to_string(m) + " = " + vstr(&o.hist[m*dm], dm) + " fails the domain test");
-            double pv = my_pdf(c, &o.hist[m*dm]); if (!same_bits(pv, o.hpdf[m])) d.viol("C15:recorded-pdf-not-pdf-of-sample", CJ, "recorded sample " + std::to_string(m) + ": recorded probability " + vf::jnum(o.hpdf[m]) + " but pdf(sample) = " + vf::jnum(pv));
-        }
-        // lock-step replay of this run
-        ref.log = &ex.log; ref.pos = ex.run_begin[r]; ref.end = ex.run_begin[r+1]; size_t its0 = ref.its.size(); size_t hrow = ref.hist.size() / dm / n;
-        bool ok = ref.run(burn, coll);
-        if (!ok){ d.viol(ref.fail_sig, CJ, "run " + std::to_string(r) + ": " + ref.fail_detail); return; }
-        // each collected iteration: every chain moved exactly when the Metropolis rule on the logged values says so
-        for(size_t t=its0; t<ref.its.size(); t++){
-            const Ref::IterRec &it = ref.its[t]; if (!it.collected) continue;
+        if (o.hpdf.size() != prev_hist + (size_t) std::max(coll, 0) * n || o.hist.size() != (prev_hist + (size_t) std::max(coll, 0) * n) * dm || o.nhist != o.hpdf.size()){
+            d.viol("C15:history-growth", CJ, "run " + std::to_string(r) + " (burn " + std::to_string(burn) + ", collect " + std::to_string(coll) + "): history went from " + std::to_string(prev_hist) + " to " + std::to_string(o.hpdf.size()) + " samples (" + std::to_string(o.hist.size()) + " coordinates), chains " + std::to_string(n)); return false; }
+        // lock-step replay of this run; after every collected iteration the recorded row is compared at once
+        ref.log = &ex.log; ref.pos = ex.run_begin[r]; ref.end = ex.run_begin[r+1]; size_t its0 = ref.its.size(); size_t hrow0 = ref.hist.size() / dm / n; bool reported = false;
+        ref.after_iteration = [&](size_t t)->bool{
+            const Ref::IterRec &it = ref.its[t]; if (!it.collected) return true; size_t hrow = ref.hist.size() / dm / n - 1;
             for(size_t i=0;i<n;i++){
                 d.evals++;
-                size_t off = (hrow * n + i) * dm; if (off + dm > o.hist.size() || off + dm > ref.hist.size()) break;
+                size_t off = (hrow * n + i) * dm; if (off + dm > o.hist.size()) return true;
                 const double *got = &o.hist[off], *want = &ref.hist[off];
                 if (!same_bits_n(got, want, dm)){
                     const double *old = it.before + i*dm, *prop = it.props + i*dm;
                     std::string cls = (same_bits_n(got, prop, dm) && !it.acc[i]) ? "moved-against-rule" : (same_bits_n(got, old, dm) && it.acc[i]) ? "kept-against-rule" : "wrong-state";
-                    d.viol("C15:metropolis:" + cls + ":" + (c.form ? "logform" : "regform"), CJ, "iteration " + std::to_string(t) + " chain " + std::to_string(i) + ": recorded " + vstr(got, dm) + ", the rule on the logged values gives " + vstr(want, dm) + " (old " + vstr(old, dm) + ", proposal " + vstr(prop, dm) + ", inside=" + std::to_string((int) it.in[i]) + ")");
+                    d.viol("C15:metropolis:" + cls + ":" + fm, CJ, "run " + std::to_string(r) + " iteration " + std::to_string(t - its0) + " chain " + std::to_string(i) + ": recorded " + vstr(got, dm) + ", the rule on the logged values gives " + vstr(want, dm) + " (old " + vstr(old, dm) + ", proposal " + vstr(prop, dm) + ", inside=" + std::to_string((int) it.in[i]) + ")");
+                    reported = true; return false;
                 }
-                if (!same_bits(o.hpdf[hrow * n + i], ref.hpdf[hrow * n + i])) d.viol("C15:recorded-pdf-mismatch", CJ, "iteration " + std::to_string(t) + " chain " + std::to_string(i) + ": recorded probability " + vf::jnum(o.hpdf[hrow*n+i]) + ", model " + vf::jnum(ref.hpdf[hrow*n+i]));
+                if (!same_bits(o.hpdf[hrow * n + i], ref.hpdf[hrow * n + i])){ d.viol("C15:recorded-pdf-mismatch", CJ, "run " + std::to_string(r) + " iteration " + std::to_string(t - its0) + " chain " + std::to_string(i) + ": recorded probability " + vf::jnum(o.hpdf[hrow*n+i]) + ", model " + vf::jnum(ref.hpdf[hrow*n+i])); reported = true; return false; }
             }
-            hrow++;
-        }
+            return true; };
+        bool ok = ref.run(burn, coll); ref.after_iteration = nullptr; (void) hrow0;
+        if (!ok){ if (!reported) d.viol(ref.fail_sig, CJ, "run " + std::to_string(r) + ": " + ref.fail_detail); return false; }
         d.evals += 3;
         if (!same_bits(o.state, ref.S)){
             // name the direction for single-iteration runs (the history is empty when nothing is collected)
             std::string cls = "wrong-state";
             if (ref.its.size() == its0 + 1){ const Ref::IterRec &it = ref.its.back(); for(size_t i=0;i<n;i++){ const double *got = &o.state[i*dm]; if (same_bits_n(got, &ref.S[i*dm], dm)) continue; cls = (same_bits_n(got, it.props + i*dm, dm) && !it.acc[i]) ? "moved-against-rule" : (same_bits_n(got, it.before + i*dm, dm) && it.acc[i]) ? "kept-against-rule" : "wrong-state"; break; } }
-            d.viol("C15:final-state:" + cls + ":" + (c.form ? "logform" : "regform"), CJ, "after run " + std::to_string(r) + " the chains are at " + vstr(o.state) + ", the model stepping on the logged values is at " + vstr(ref.S));
+            d.viol("C15:final-state:" + cls + ":" + fm, CJ, "after run " + std::to_string(r) + " the chains are at " + vstr(o.state) + ", the model stepping on the logged values is at " + vstr(ref.S)); return false;
         }
-        if (!same_bits(o.pv, ref.pv)) d.viol("C15:cached-pdf-mismatch", CJ, "after run " + std::to_string(r) + " cached probabilities " + vstr(o.pv) + ", model " + vstr(ref.pv));
+        if (!same_bits(o.pv, ref.pv)){ d.viol("C15:cached-pdf-mismatch", CJ, "after run " + std::to_string(r) + " cached probabilities " + vstr(o.pv) + ", model " + vstr(ref.pv)); return false; }
         double want_rate = o.hpdf.empty() ? 0.0 : (double) ref.accepted / (double) o.hpdf.size();
-        if (!same_bits(o.rate, want_rate)) d.viol("C15:acceptance-counter", CJ, "acceptance rate " + vf::jnum(o.rate) + " but " + std::to_string(ref.accepted) + " proposals were accepted in " + std::to_string(o.hpdf.size()) + " recorded samples");
+        if (!same_bits(o.rate, want_rate)){ d.viol("C15:acceptance-counter", CJ, "acceptance rate " + vf::jnum(o.rate) + " but " + std::to_string(ref.accepted) + " proposals were accepted in " + std::to_string(o.hpdf.size()) + " recorded samples"); return false; }
+        // recorded samples (independent of the model): inside the domain (given an initial state inside), recorded value = pdf(sample)
+        for(size_t m=prev_hist; m<o.hpdf.size() && (m+1)*dm <= o.hist.size(); m++){
+            d.evals += 2;
+            if (c.dom != 2 && !my_domain(c, &o.hist[m*dm])){ d.viol("C15:recorded-sample-outside-domain", CJ, "recorded sample " + std::to_string(m) + " = " + vstr(&o.hist[m*dm], dm) + " fails the domain test"); return false; }
+            double pv = my_pdf(c, &o.hist[m*dm]); if (!same_bits(pv, o.hpdf[m])){ d.viol("C15:recorded-pdf-not-pdf-of-sample", CJ, "recorded sample " + std::to_string(m) + ": recorded probability " + vf::jnum(o.hpdf[m]) + " but pdf(sample) = " + vf::jnum(pv)); return false; }
+        }
         prev_hist = o.hpdf.size();
         // states: (configuration, consumed answer prefix) at every point where the library state was observed
         for(size_t t=its0; t<ref.its.size(); t++){ if (ref.its[t].collected || t + 1 == ref.its.size()) d.state(hcomb(ch, hbytes(ex.used.data(), std::min(ref.its[t].draws, ex.used.size()), t))); }
         if (ref.its.size() == its0) d.state(hcomb(ch, hbytes(ex.used.data(), 0, 1000 + ref.its.size())));
     }
+    return true;
 }
 
-static void exec_case(const Cfg &c, const Case &k, Delta &d){
-    Exec ex; run_library(c, k.runs, k.s, ex); d.execs++;
-    Ref ref(c, true); check_exec(c, k, ex, d, ref);
-    if (ex.obs.empty()) return;
-    const RunObs &fin = ex.obs.back();
+static void outcome_of(const Cfg &c, const Exec &ex, const Ref &ref, Delta &d){
+    if (ex.obs.empty()) return; const RunObs &fin = ex.obs.back();
     d.dist(hcomb(c.hash(), hcomb(hvec(fin.state), hcomb(hvec(fin.hist), hvec(fin.hpdf, (uint64_t) ref.moves)))));
-    { char b[64]; snprintf(b, sizeof(b), "moves=%ld/%ld outside=%ld", ref.moves, ref.iters * c.n, ref.outside); d.outcome(b); }
-    if (k.kind == 'C' && ex.thrown.empty() && ex.obs.size() == 2){
-        // the single run of the combined length with the same random stream
-        int b1 = k.runs[0].first, c1 = k.runs[0].second, b2 = k.runs[1].first, c2 = k.runs[1].second, T = b1 + c1 + b2 + c2;
-        Case joint{'J', {{0, T}}, k.s}; Exec ej; run_library(c, joint.runs, joint.s, ej); d.execs++;
-        Ref rj(c, true); check_exec(c, joint, ej, d, rj);
-        if (ej.obs.size() != 1) return;
-        const RunObs &jo = ej.obs[0]; size_t n = (size_t) c.n, dm = (size_t) c.d;
-        d.evals += 3;
-        if (!same_bits(jo.state, fin.state) || !same_bits(jo.pv, fin.pv)) d.viol("C15:split-run-differs:state", CJ, "run(" + std::to_string(b1) + "," + std::to_string(c1) + ") then run(" + std::to_string(b2) + "," + std::to_string(c2) + ") ends at " + vstr(fin.state) + ", one run of " + std::to_string(T) + " iterations at " + vstr(jo.state));
-        // the history of the split run = iterations [b1, b1+c1) and [b1+c1+b2, T) of the joint history
-        std::vector<double> sel, selp; for(int t=0;t<T;t++){ bool keep = (t >= b1 && t < b1 + c1) || (t >= b1 + c1 + b2); if (!keep) continue; if (((size_t) t + 1) * n * dm > jo.hist.size()) break; sel.insert(sel.end(), jo.hist.begin() + (size_t) t*n*dm, jo.hist.begin() + ((size_t) t+1)*n*dm); selp.insert(selp.end(), jo.hpdf.begin() + (size_t) t*n, jo.hpdf.begin() + ((size_t) t+1)*n); }
-        if (!same_bits(sel, fin.hist) || !same_bits(selp, fin.hpdf)) d.viol("C15:split-run-differs:history", CJ, "history of the two runs " + vstr(fin.hist) + " differs from the corresponding iterations of the single run " + vstr(sel));
-        if (ex.used != ej.used) d.viol("C15:split-run-differs:random-stream", CJ, "the two runs consumed " + std::to_string(ex.used.size()) + " draws, the single run " + std::to_string(ej.used.size()));
-    }
+    char b[64]; snprintf(b, sizeof(b), "moves=%ld/%ld outside=%ld", ref.moves, ref.iters * c.n, ref.outside); d.outcome(b);
+}
+static void exec_case(const Cfg &c, const Case &k, Delta &d){
+    if (k.kind != 'C'){ Exec ex; run_library(c, k.runs, k.s, ex); d.execs++; Ref ref(c, true); check_exec(c, k, ex, d, ref); outcome_of(c, ex, ref, d); return; }
+    // splitting: first the single run of the combined length (everything collected, so every iteration is visible), then the two runs
+    int b1 = k.runs[0].first, c1 = k.runs[0].second, b2 = k.runs[1].first, c2 = k.runs[1].second, T = b1 + c1 + b2 + c2;
+    Case joint{'J', {{0, T}}, k.s}; Exec ej; run_library(c, joint.runs, joint.s, ej); d.execs++;
+    Ref rj(c, true); bool okj = check_exec(c, joint, ej, d, rj); outcome_of(c, ej, rj, d);
+    if (!okj || ej.obs.size() != 1) return;
+    Exec ex; run_library(c, k.runs, k.s, ex); d.execs++;
+    Ref ref(c, true); bool oks = check_exec(c, k, ex, d, ref); outcome_of(c, ex, ref, d);
+    if (!oks || ex.obs.size() != 2) return;
+    const RunObs &fin = ex.obs.back(), &jo = ej.obs[0]; size_t n = (size_t) c.n, dm = (size_t) c.d;
+    d.evals += 3;
+    if (!same_bits(jo.state, fin.state) || !same_bits(jo.pv, fin.pv)){ d.viol("C15:split-run-differs:state", CJ, "run(" + std::to_string(b1) + "," + std::to_string(c1) + ") then run(" + std::to_string(b2) + "," + std::to_string(c2) + ") ends at " + vstr(fin.state) + ", one run of " + std::to_string(T) + " iterations at " + vstr(jo.state)); return; }
+    // the history of the split run = iterations [b1, b1+c1) and [b1+c1+b2, T) of the joint history
+    std::vector<double> sel, selp; for(int t=0;t<T;t++){ bool keep = (t >= b1 && t < b1 + c1) || (t >= b1 + c1 + b2); if (!keep) continue; if (((size_t) t + 1) * n * dm > jo.hist.size()) break; sel.insert(sel.end(), jo.hist.begin() + (size_t) t*n*dm, jo.hist.begin() + ((size_t) t+1)*n*dm); selp.insert(selp.end(), jo.hpdf.begin() + (size_t) t*n, jo.hpdf.begin() + ((size_t) t+1)*n); }
+    if (!same_bits(sel, fin.hist) || !same_bits(selp, fin.hpdf)){ d.viol("C15:split-run-differs:history", CJ, "history of the two runs " + vstr(fin.hist) + " differs from the corresponding iterations of the single run " + vstr(sel)); return; }
+    if (ex.used != ej.used) d.viol("C15:split-run-differs:random-stream", CJ, "the two runs consumed " + std::to_string(ex.used.size()) + " draws, the single run " + std::to_string(ej.used.size()));
 }
 
 // roles of the draws of an answer string according to the model alone (no library involved)
